@@ -70,6 +70,7 @@ Drift(o) ==
 
 Setup(o) ==
   (IF o.setup # "" THEN {o.setup} ELSE {})
+  \cup (IF ~o.started /\ o.err.errno \in TransientErrno /\ o.err.loc # LocOf(o.fail) THEN {"resource shortage: " \o o.err.msg} ELSE {})
   \cup (IF o.fail = "none" /\ o.cb = "ok" /\ ((~o.started /\ ~o.marker) \/ (o.started /\ (~o.report \/ ~o.marker)))
         THEN {"plain launch of this configuration did not run the probe"} ELSE {})
   \cup (IF o.hang # "" THEN {"hang"} ELSE {})
